@@ -1,7 +1,11 @@
 (* line-oriented driver for the extracted restart model (property C07).
    input : case <id> <t0> <aoft> <ndbs> / actions (engine case format, optional trailing db id) /
-           restart <wall> <dbnow_0> ... <dbnow_{ndbs-1}> / end
-   output: same observation lines as `restarth hist` + `restarth restart` (replies, census before, census after) *)
+           [disk ...] / restart <wall> <dbnow_0> ... <dbnow_{ndbs-1}> / [actions of phase 2 / [disk ...] / restart ...] / end
+   output: same observation lines as `restarth hist` + `restarth restart` (replies, census before, census after).
+   TWO-RESTART histories: after a `restart` line the model continues on the restarted databases
+   (`recover_at` of the records found on disk when `disk` lines were given - what the real node was started on -,
+   otherwise of the model's own record stream), as leader; the records emitted in phase 2 are appended to the kept
+   records; the next `restart` line recovers from the whole list.  A line `phase2` separates the two output blocks. *)
 open Model
 
 let rec pos_of_i64 (n : int64) : positive =
@@ -88,7 +92,16 @@ let () =
             let dbnow = if Array.length f > 2 + i && f.(2 + i) <> "-1" then zof f.(2 + i) else wall in
             census i (recover_at !aoft (List.rev rl) wall dbnow)) !disk;
           print_endline "census3-end"
-        end
+        end;
+        (* continuation (phase 2 of a two-restart history) *)
+        let base = if !have_disk then Array.copy !disk else Array.copy !recs in
+        dbs := Array.mapi (fun i rl ->
+          let dbnow = if Array.length f > 2 + i && f.(2 + i) <> "-1" then zof f.(2 + i) else wall in
+          recover_at !aoft (List.rev rl) wall dbnow) base;
+        recs := base;
+        disk := Array.make (Array.length base) [];
+        have_disk := false;
+        print_endline "phase2"
       | a ->
         Printf.printf "act %s\n" a;
         let apply i act =
